@@ -156,7 +156,7 @@ class StatusMonitor:
         fallbackWeight = 1.0/len(self.commands)
         weights = []
 
-        for stage in status_report:
+        for stage in sorted(status_report):
             try:
                 weights.append(float(status_report[stage]['stage-weight']))
             except:
